@@ -199,4 +199,7 @@ class SegwitChecker(SolutionChecker):
                     "this version witness program not yet supported",
                     errno.DISCOURAGE_UPGRADABLE_WITNESS_PROGRAM,
                 )
+            # other versions always succeed; what the witness program left on
+            # the stack is not subject to the clean stack rule
+            return b"", [self.VM.VM_TRUE], flags, None  # type: ignore[attr-defined]
         return None
